@@ -5,14 +5,22 @@
 // @h c07_children_tuple tier=both bounded=tuple-of-2
 // @h c07_children_newtype tier=both
 // @h c07_children_struct tier=both bounded=2-properties
-// @h c07_children_enum_simple_item tier=both bounded=2-variants
-// @h c07_children_enum_tuple_struct tier=both bounded=2-variants-of-2-children
+// @h c07_children_enum_simple tier=both bounded=1-variant
+// @h c07_children_enum_item tier=both bounded=1-variant
+// @h c07_children_enum_tuple tier=both bounded=1-variant-of-2-children
+// @h c07_children_enum_struct tier=both bounded=1-variant-of-2-children
+// @h c07_children_enum_two_variants tier=thorough bounded=2-variants
 // @h c07_children_box tier=both
 // @h c07_children_vec tier=both
 // @h c07_children_map tier=both
 // @h c07_children_set tier=both
 // @h c07_children_reference tier=both
-// @h c07_children_scalars tier=both
+// @h c07_children_unit tier=both
+// @h c07_children_boolean tier=both
+// @h c07_children_integer tier=both
+// @h c07_children_float tier=both
+// @h c07_children_string tier=both
+// @h c07_children_json_value tier=both
 // @h c07_children_native tier=both
 // @canary canary_c07_children
 //
@@ -203,32 +211,56 @@ h!(
     )
 );
 h!(
-    c07_children_enum_simple_item,
+    c07_children_enum_simple,
+    0,
+    mk_enum(
+        "E",
+        crate::type_entry::EnumTagType::External,
+        vec![mk_variant("A", VariantDetails::Simple)]
+    )
+);
+h!(
+    c07_children_enum_item,
     1,
     mk_enum(
         "E",
         crate::type_entry::EnumTagType::External,
-        vec![
-            mk_variant("A", VariantDetails::Simple),
-            mk_variant("B", VariantDetails::Item(id()))
-        ]
+        vec![mk_variant("B", VariantDetails::Item(id()))]
     )
 );
 h!(
-    c07_children_enum_tuple_struct,
-    4,
+    c07_children_enum_tuple,
+    2,
     mk_enum(
         "E",
         crate::type_entry::EnumTagType::Untagged,
+        vec![mk_variant("A", VariantDetails::Tuple(vec![id(), id()]))]
+    )
+);
+h!(
+    c07_children_enum_struct,
+    2,
+    mk_enum(
+        "E",
+        crate::type_entry::EnumTagType::Untagged,
+        vec![mk_variant(
+            "B",
+            VariantDetails::Struct(vec![
+                mk_prop("x", id(), StructPropertyState::Required),
+                mk_prop("y", id(), StructPropertyState::Required)
+            ])
+        )]
+    )
+);
+h!(
+    c07_children_enum_two_variants,
+    2,
+    mk_enum(
+        "E",
+        crate::type_entry::EnumTagType::External,
         vec![
-            mk_variant("A", VariantDetails::Tuple(vec![id(), id()])),
-            mk_variant(
-                "B",
-                VariantDetails::Struct(vec![
-                    mk_prop("x", id(), StructPropertyState::Required),
-                    mk_prop("y", id(), StructPropertyState::Required)
-                ])
-            )
+            mk_variant("A", VariantDetails::Item(id())),
+            mk_variant("B", VariantDetails::Item(id()))
         ]
     )
 );
@@ -243,20 +275,12 @@ h!(
     TypeEntry::new_native_params("::std::collections::Foo", &[id()])
 );
 
-#[kani::proof]
-#[kani::unwind(8)]
-fn c07_children_scalars() {
-    let which: u8 = kani::any();
-    let entry: TypeEntry = match which {
-        0 => TypeEntryDetails::Unit.into(),
-        1 => TypeEntryDetails::Boolean.into(),
-        2 => TypeEntryDetails::Integer("u8".to_string()).into(),
-        3 => TypeEntryDetails::Float("f64".to_string()).into(),
-        4 => TypeEntryDetails::String.into(),
-        _ => TypeEntryDetails::JsonValue.into(),
-    };
-    check_children(entry, 0)
-}
+h!(c07_children_unit, 0, TypeEntryDetails::Unit.into());
+h!(c07_children_boolean, 0, TypeEntryDetails::Boolean.into());
+h!(c07_children_integer, 0, TypeEntryDetails::Integer("u8".to_string()).into());
+h!(c07_children_float, 0, TypeEntryDetails::Float("f64".to_string()).into());
+h!(c07_children_string, 0, TypeEntryDetails::String.into());
+h!(c07_children_json_value, 0, TypeEntryDetails::JsonValue.into());
 
 #[kani::proof]
 #[kani::unwind(8)]
